@@ -479,13 +479,20 @@ fn order_case(engine: usize, n: usize, pat: usize) -> (Vec<String>, Vec<String>)
         d.set("v", 0i64);
         e.insert("T".to_string(), d);
         e.fire_all()
-    } else {
+    } else if engine == 1 {
         let mut e = TypedReteUlEngine::new();
         for i in 0..n {
             let act = typed_action(Kind::AlwaysTrue, "v");
             e.add_rule_with_action(format!("r{:03}", i), node_for(Kind::AlwaysTrue, "v"), prio(i), true, move |f, r| act(f, r));
         }
         e.set_fact("v", 0i64);
+        e.fire_all()
+    } else {
+        let mut e = ReteUlEngine::new();
+        for i in 0..n {
+            e.add_rule_with_action(format!("r{:03}", i), node_for(Kind::AlwaysTrue, "v"), prio(i), true, |_f: &mut std::collections::HashMap<String, String>| {});
+        }
+        e.set_fact("v".into(), "0".into());
         e.fire_all()
     };
     (got, want)
@@ -496,7 +503,7 @@ fn run_order(opts: &Opts) -> Report {
     let mut rep = Report::new("engine_firing_order");
     let nmax = if opts.tier == Tier::Quick { 48 } else { 128 };
     let mut distinct = 0u64;
-    for engine in 0..2usize {
+    for engine in 0..3usize {
         for n in 1..=nmax {
             for pat in 0..6usize {
                 rep.count("evaluations", 1);
@@ -536,7 +543,53 @@ fn run_order(opts: &Opts) -> Report {
     }
     rep.count("nontrivial", distinct);
     rep.sample(json!({"engine": "TypedReteUlEngine", "n_rules": 21, "priority_pattern": 1}));
-    rep.bound = format!("IncrementalEngine and TypedReteUlEngine x every rule count 1..={} x 6 priority patterns with ties: all rules match, fire_all fires every rule once in descending priority; among equals in insertion order (TypedReteUlEngine) / in any order (IncrementalEngine, whose activation order is decided by a hash map)", nmax);
+    rep.bound = format!("IncrementalEngine, TypedReteUlEngine and ReteUlEngine x every rule count 1..={} x 6 priority patterns with ties: all rules match, fire_all fires every rule once in descending priority; among equals in insertion order (TypedReteUlEngine, ReteUlEngine) / in any order (IncrementalEngine, whose activation order is decided by a hash map)", nmax);
+    rep.wall_s = t0.elapsed().as_secs_f64();
+    rep
+}
+
+/// IncrementalEngine: after a fire_all (which may have hit the iteration bound because of a runaway rule) the fact is
+/// updated and fire_all is called again without a reset: a no-loop rule that fired in the first call does not fire again
+fn second_call_refires(set: &(Vec<usize>, usize)) -> Vec<String> {
+    let (vars, p) = set;
+    let mut e = IncrementalEngine::new();
+    for (i, &vi) in vars.iter().enumerate() {
+        let (k, nl) = VARIANTS[vi];
+        e.add_rule(TypedReteUlRule { name: format!("r{}", i), node: node_for(k, "T.v"), priority: PRIO[*p][i], no_loop: nl, action: typed_action(k, "T.v") }, vec!["T".to_string()]);
+    }
+    let mut d = TypedFacts::new();
+    d.set("v", 0i64);
+    let h = e.insert("T".to_string(), d);
+    let first = e.fire_all();
+    let mut d2 = TypedFacts::new();
+    d2.set("v", 0i64);
+    let _ = e.update(h, d2);
+    let second = e.fire_all();
+    (0..vars.len()).filter(|&i| VARIANTS[vars[i]].1).map(|i| format!("r{}", i)).filter(|r| first.contains(r) && second.contains(r)).collect()
+}
+
+fn run_second_call(_opts: &Opts) -> Report {
+    let t0 = Instant::now();
+    let mut rep = Report::new("no_loop_across_calls");
+    let sets = rule_sets();
+    let mut nt = 0u64;
+    for (k, set) in sets.iter().enumerate() {
+        rep.count("evaluations", 1);
+        let case = json!({"sub": "no_loop_across_calls", "set": k, "rules": describe(k)["rules"]});
+        match std::panic::catch_unwind(|| second_call_refires(set)) {
+            Err(_) => rep.violation(Violation { class: "fire_all_panicked".into(), detail: crate::explore::take_panic(), tags: vec![], case }),
+            Ok(again) => {
+                if !again.is_empty() {
+                    rep.violation(Violation { class: "no_loop_rule_fired_again_without_reset".into(), detail: format!("insert, fire_all, update, fire_all (no reset): the no-loop rules {:?} fired in both calls", again), tags: vec![], case });
+                } else if set.0.iter().any(|&v| VARIANTS[v].1) {
+                    nt += 1;
+                }
+            }
+        }
+    }
+    rep.count("nontrivial", nt);
+    rep.sample(json!({"history": "insert T{v:0}; fire_all; update T{v:0}; fire_all"}));
+    rep.bound = format!("IncrementalEngine x the {} rule sets of the termination sub-check (incl. runaway rules that drive the first call into its iteration bound): insert, fire_all, update, fire_all without a reset", sets.len());
     rep.wall_s = t0.elapsed().as_secs_f64();
     rep
 }
@@ -612,6 +665,9 @@ pub fn run(opts: &Opts) -> Vec<Report> {
     if crate::props::wants(opts, "engine_firing_order") {
         out.push(run_order(opts));
     }
+    if crate::props::wants(opts, "no_loop_across_calls") {
+        out.push(run_second_call(opts));
+    }
     if crate::props::wants(opts, "termination") {
         out.push(run_termination(opts));
     }
@@ -624,6 +680,13 @@ pub fn replay(case: &serde_json::Value) -> crate::props::ReplayResult {
         let hist = vec![case.to_string()];
         let (got, want) = order_case(g("engine_idx"), g("n_rules"), g("priority_pattern"));
         return if got == want { Ok(hist) } else { Err((hist, "firing_order_differs".into(), format!("fired {:?}, expected {:?}", got, want))) };
+    }
+    if case["sub"].as_str() == Some("no_loop_across_calls") {
+        let k = case["set"].as_u64().unwrap_or(0) as usize;
+        let sets = rule_sets();
+        let hist = vec![case.to_string()];
+        let again = second_call_refires(&sets[k.min(sets.len() - 1)]);
+        return if again.is_empty() { Ok(hist) } else { Err((hist, "no_loop_rule_fired_again_without_reset".into(), format!("{:?}", again))) };
     }
     if case["sub"].as_str() == Some("termination") {
         let k = case["case"].as_u64().unwrap_or(0) as usize;
